@@ -113,10 +113,11 @@ theorem Expr.ind {motive : Expr → Prop}
 
 theorem PVal.ind {motive : PVal → Prop}
     (val : ∀ v, motive (.val v)) (undef : ∀ p, motive (.undef p))
-    (coll : ∀ k items, (∀ kv ∈ items, motive kv.2) → motive (.coll k items)) : ∀ pv, motive pv := by
+    (coll : ∀ k items, (∀ kv ∈ items, motive kv.2) → motive (.coll k items))
+    (num : ∀ n, motive (.num n)) : ∀ pv, motive pv := by
   intro pv
   exact PVal.rec (motive_1 := motive) (motive_2 := fun items => ∀ kv ∈ items, motive kv.2)
-    (motive_3 := fun kv => motive kv.2) val undef (fun k items ih => coll k items ih)
+    (motive_3 := fun kv => motive kv.2) val undef (fun k items ih => coll k items ih) num
     (by intro kv h; cases h)
     (fun hd tl h1 h2 kv hm => by
       rcases List.mem_cons.mp hm with rfl | hm
@@ -283,6 +284,7 @@ theorem holds_str_error {pv : PVal} {q : Path} (h : pv.Holds q) :
   cases pv with
   | val v => cases h
   | undef p => exact ⟨.undefined p, by simp [PVal.str]⟩
+  | num n => cases h
   | coll k items => simpa [PVal.str] using holds_repr_error h
 
 /-- … and is found by the deep search of the wrapper -/
@@ -296,6 +298,7 @@ theorem findUndef_holds (pv : PVal) : ∀ q, pv.findUndef = some q → pv.Holds 
   induction pv using PVal.ind with
   | val v => intro q h; simp [PVal.findUndef] at h
   | undef p => intro q h; simp [PVal.findUndef] at h; subst h; exact .undef
+  | num n => intro q h; simp [PVal.findUndef] at h
   | coll k items ih =>
     intro q h
     simp only [PVal.findUndef] at h
@@ -308,6 +311,7 @@ theorem repr_error_holds (pv : PVal) : ∀ x, pv.repr .strict = .error x →
   induction pv using PVal.ind with
   | val v => intro x h; simp [PVal.repr] at h
   | undef p => intro x h; simp [PVal.repr] at h; exact ⟨p, .undef, h.symm⟩
+  | num n => intro x h; simp [PVal.repr] at h
   | coll k items ih =>
     intro x h
     simp only [PVal.repr] at h
@@ -324,6 +328,7 @@ theorem str_error_holds {pv : PVal} {x : Err} (h : pv.str .strict = .error x) :
   cases pv with
   | val v => simp [PVal.str] at h
   | undef p => simp [PVal.str] at h; exact ⟨p, .undef, h.symm⟩
+  | num n => simp [PVal.str, PVal.repr] at h
   | coll k items => exact repr_error_holds _ x (by simpa [PVal.str] using h)
 
 /-- a value without `Undefined` objects prints the same under every policy -/
@@ -331,6 +336,7 @@ theorem clean_repr (pol : Policy) (pv : PVal) : (∀ q, ¬ pv.Holds q) → pv.re
   induction pv using PVal.ind with
   | val v => intro _; simp [PVal.repr, PVal.reprL]
   | undef p => intro h; exact absurd .undef (h p)
+  | num n => intro _; simp [PVal.repr, PVal.reprL]
   | coll k items ih =>
     intro h
     have := reprItems_clean (pol := pol) (k := k) (items := items)
@@ -341,6 +347,7 @@ theorem clean_str (pol : Policy) {pv : PVal} (h : ∀ q, ¬ pv.Holds q) : pv.str
   cases pv with
   | val v => simp [PVal.str, PVal.strL]
   | undef p => exact absurd .undef (h p)
+  | num n => simp [PVal.str, PVal.strL, PVal.repr, PVal.reprL]
   | coll k items => simpa [PVal.str, PVal.strL] using clean_repr pol _ h
 
 /-- **a stored undefined reference survives evaluation as an `Undefined` object** (or the
@@ -888,6 +895,7 @@ theorem defined_exact_nativeE (cf : Conf) {ctx : Ctx} {e : Expr} (l r : Str)
     cases pv with
     | undef p => exact absurd .undef (hc p)
     | val v => rfl
+    | num n => rfl
     | coll k items => rfl
   have hs : cf.search pv = none := by
     unfold Conf.search; split
@@ -897,6 +905,7 @@ theorem defined_exact_nativeE (cf : Conf) {ctx : Ctx} {e : Expr} (l r : Str)
     cases pv with
     | undef p => exact absurd .undef (hc p)
     | val v => simp [PVal.out, hn]
+    | num n => simp [PVal.out, hn]
     | coll k items => simp [PVal.out, hn]
   exact ⟨pv, hpv, hc, by simp [renderSrc, hpv, hs, ho]⟩
 
